@@ -357,6 +357,9 @@ PROPS = {
                   "BluetoeModel.PduRing.alloc_fails_iff", "BluetoeModel.PduRing.alloc_position",
                   "BluetoeModel.PduRing.alloc_region_free", "BluetoeModel.PduRing.pop_pre_iff",
                   "BluetoeModel.PduRing.rep_reset"],
+        witnesses=["BluetoeModel.PduRing.unfixed_push_loses_pdu_witness", "BluetoeModel.PduRing.fixed_push_keeps_pdu",
+                   "BluetoeModel.PduRing.empty_ring_midbuffer_refuses"],
+        imports=["BluetoeModel.PduRing.Props", "BluetoeModel.PduRing.Witness"],
         run=run_c18,
         level="proof",
         technique="Lean 4 refinement proof (offset model of pdu_ring_buffer refines a FIFO list of committed PDUs for every history, ring size and layout overhead; representation invariant with the three shapes empty / contiguous / split-with-wrap-mark) + differential correspondence with the real pdu_ring_buffer<> under ASan",
